@@ -586,7 +586,7 @@ UNAMES = [u"plain", u"Ünïcödé scenario", u"with \"quotes\"", u"日本語", u
 @st.composite
 def case_st(draw):
     prog = draw(gen.program_st(faults=draw(st.integers(0, 4)) == 0, max_features=2, relog=True,
-                               outcomes=["pass", "pass", "pass", "fail", "raise", "undefined", "pending", "skip", "convert"],
+                               outcomes=["pass", "pass", "pass", "fail", "raise", "undefined", "pending", "skip", "convert", "takes"],
                                cfg=gen.cfg_st(flags=("stop", "dry_run"), p_tags=0.4)))
     # tables, doc-strings and unicode names
     for fi, f in enumerate(prog["features"]):
